@@ -125,7 +125,7 @@ Definition ex05_outer : ty := TComp true [TPrim (PF 16 true); ex05_inner; TFix (
 Example c05_example_wf : wf_ty ex05_outer = true /\ is_comp ex05_outer = true.
 Proof. vm_compute. split; reflexivity. Qed.
 Example c05_example_exports :
-  exported TgtC KExtentBytes ex05_inner = Some 614 /\ exported TgtC KBufferBytes ex05_inner = Some 491 /\
+  exported TgtC KExtentBytes ex05_inner = Some 614 /\ exported TgtC KBufferBytes ex05_inner = Some 490 /\
   exported TgtCpp KBufferBytes ex05_outer = Some 619 /\ exported TgtPy KExtentBytes ex05_outer = Some 619 /\
   exported TgtC KUnionCount ex05_outer = Some 3 /\ exported TgtC KCap (TVar (TPrim (PS 13 true)) 300) = Some 300.
 Proof. vm_compute. repeat split; reflexivity. Qed.
